@@ -217,17 +217,19 @@ def isStringLenient (t : List Byte) : Bool :=
 
 /-! ## layout between a value and its delimiter -/
 
-/-- blanks and Part 21 comments `/* … */`; a last comment that is never closed swallows the rest of the input -/
-inductive Layout : List Byte → Prop where
-  | nil : Layout []
-  | blank {c : Byte} {m : List Byte} : isSpace c = true → Layout m → Layout (c :: m)
-  | comment {body m : List Byte} : Layout m → Layout (47 :: 42 :: (body ++ 42 :: 47 :: m))
-  | unterminated {body : List Byte} : Layout (47 :: 42 :: body)
-
 /-- the body of a comment does not contain its own closing `*/` (`prev` = the character before, 0 at the start) -/
 def noClose : Byte → List Byte → Bool
   | _, [] => true
   | prev, c :: t => !(prev == 42 && c == 47) && noClose c t
+
+/-- blanks and Part 21 comments `/* body */` whose body does not contain `*/` (so a comment ends at its first `*/`: what
+    follows is outside it); the only other shape is a *last* comment that is never closed — its text contains no `*/` at all
+    and runs to the end of the input (`SkipTokenSeparators` has no length bound, unlike `ReadComment`) -/
+inductive Layout : List Byte → Prop where
+  | nil : Layout []
+  | blank {c : Byte} {m : List Byte} : isSpace c = true → Layout m → Layout (c :: m)
+  | comment {body m : List Byte} : noClose 0 body = true → Layout m → Layout (47 :: 42 :: (body ++ 42 :: 47 :: m))
+  | unterminated {body : List Byte} : noClose 0 body = true → Layout (47 :: 42 :: body)
 
 /-- layout in its unambiguous reading: blanks and comments `/* body */` whose body does not contain `*/` -/
 inductive ExactLayout : List Byte → Prop where
